@@ -56,7 +56,7 @@ m = {
  },
  "engines": [
    {"name": "bwv", "path": "/verif/harness", "serves_properties": sorted(CLAIMED), "kind_free_text": "Rust harness: proptest TestRunner per worker (fixed seeds from VERIF_SEED), smallest-first enumerators, real blockwatch binary + real git in /dev/shm sandboxes, reference models, replay files"},
-   {"name": "fuzz", "path": "/verif/fuzz", "serves_properties": ["C03", "C04", "C05"], "kind_free_text": "cargo-fuzz/libFuzzer targets with the semantic oracle inside the target (thorough tier)"},
+   {"name": "fuzz", "path": "/verif/harness/fuzz", "serves_properties": ["C03", "C04", "C05"], "kind_free_text": "cargo-fuzz/libFuzzer targets with the semantic oracle inside the target (thorough tier)"},
  ],
  "checks": checks,
  "not_applicable": na,
